@@ -60,7 +60,23 @@ CHECKS = {
                 "non-overlapping (except c == m); a variable index is assumed to stay inside its array field (C06). Assembly backends are covered by C05's rules, not here.",
         "technique": "interprocedural taint/dependency dataflow over LLVM IR (N0 and -O3), byte-granular field-sensitive memory",
     },
+    "C03": {
+        "text": "Four rule families over the six decrypt functions and check_tag: (GUARD) finite-class execution on clen: 0..7 return negative before any load/store/call; (MUST) for every class >= 8 "
+                "every path returns exactly the value of the single check_tag call; (ARGS) size = 8, tag1 = the 8-byte local filled by generate_tag on every path, tag2 = c + clen - 8 proven by affine "
+                "cursor/length lock-step (SCEV recurrences + residue reasoning for the 1/2/3-byte tails); (CMP) in check_tag the compare loop's SCEV coverage is [0,size) for both tags, the accumulator "
+                "update equals accum | (tag1[i]^tag2[i]) at bit granularity, its range is [0,255] by a known-bits fixpoint, and the fold is evaluated exhaustively on all 256 values: 0 -> 0, rest -> -1.",
+        "note": "Decides that the verdict is 0 exactly when all 64 bits of the computed and received tag agree, for every path; that the computed tag depends on every input bit is a property of the "
+                "cipher (structure under C02), and the 2^-64 bound is not a code property. N0 (source-shaped) IR of clang 14 only.",
+        "technique": "finite-class abstract execution + affine cursor/length analysis (SCEV) + bit-provenance and known-bits abstract interpretation",
+    },
+    "C04": {
+        "text": "check_tag's wipe loop: SCEV trip count = plaintext_len, one unconditional byte store at {plaintext,+,1} of p[i] & mask, with mask = 0xFF for accumulator 0 and 0x00 for each of the 255 "
+                "other accumulator values (exhaustive), the same accumulator the verdict is folded from. All six AEAD/SIV decrypt call sites pass the entry value of m and clen - 8 (affine equality, "
+                "through the *mlen reload), and for every clen class >= 8 every path leaves through that call.",
+        "note": "That an accepted buffer holds exactly the plaintext is C01/C08. Distinct pointer parameters assumed non-overlapping except c == m.",
+        "technique": "SCEV loop-coverage + bit-provenance of the stored value + affine argument equality + must-pass-through",
+    },
 }
 
 _NB = "not built yet in this session (design exists in DESIGN.md; claimed only once its check fires on broken variants and is silent on the unchanged tree)"
-NOT_APPLICABLE = {p: _NB for p in ["C01", "C02", "C03", "C04", "C05", "C06", "C08", "C09", "C10", "C11", "C12", "C13", "C14", "C15", ]}
+NOT_APPLICABLE = {p: _NB for p in ["C01", "C02", "C05", "C06", "C08", "C09", "C10", "C11", "C12", "C13", "C14", "C15", ]}
